@@ -29,7 +29,12 @@ pub fn exec(rec: &Value, _st: &mut State) -> Value {
     let s = (2.0f64).powi(gi_or(rec, "sc", 0) as i32);
     let verts: Vec<Point3> = gvvi(rec, "vpos").iter().map(|p| Point3::new(p[0] as f64 * s, p[1] as f64 * s, p[2] as f64 * s)).collect();
     let faces: Vec<[u32; 3]> = gvvi(rec, "faces").iter().map(|f| [f[0] as u32, f[1] as u32, f[2] as u32]).collect();
-    let mut mesh = Mesh::new(verts, faces, false);
+    // `solid`: the mesh is built with the solid flag (1) or is the convex hull of the described mesh (2; only for convex inputs)
+    let mut mesh = match gi_or(rec, "solid", 0) {
+        0 => Mesh::new(verts, faces, false),
+        1 => Mesh::new(verts, faces, true),
+        _ => Mesh::new(verts, faces, false).convex_hull(),
+    };
     let n = gvi(rec, "n");
     let nv = Vector3::new(n[0] as f64, n[1] as f64, n[2] as f64);
     let d = (gi(rec, "dn") as f64 / gi(rec, "dd") as f64) * s / nv.norm();
